@@ -74,6 +74,18 @@ def _mc_ref():
     return core.tlc_ok("mc/MC_TrajectoryRef", cfg="mc/MC_TrajectoryRef.cfg", workers=3, timeout=1500, xmx="3g")
 
 
+def _deep_ref(num, seed):
+    r = core.tlc("mc/MC_TrajectoryRef", cfg="mc/MC_TrajectoryRef_deep.cfg", workers=1, timeout=3000, xmx="3g",
+                 simulate=num, depth=30, seed=seed)
+    m = re.search(r"The number of states generated: (\d+)", r.out)
+    if r.rc != 0 or "Error:" in r.out or not m:
+        raise core.ToolError("TLC failed on MC_TrajectoryRef_deep (an invariant of the moving-reference design is refuted "
+                             "on a random walk, or a tool error):\n" + r.out[-3000:])
+    r.generated = int(m.group(1))
+    r.distinct = 0
+    return r
+
+
 def _attack_ref():
     """Low flight allowed 61 NM from the airfield: TLC must refute SafeAllCex (and only that invariant)."""
     r = core.tlc("mc/MC_TrajectoryRef", cfg="mc/MC_TrajectoryRef_attack_farlow.cfg", workers=1, timeout=1500, xmx="3g")
@@ -427,6 +439,7 @@ def check(run):
         jobs["H:abs2"] = ex.submit(_hists, "gen/Gen_TrajectoryHist2.cfg")
         jobs["M:deep_random_walks"] = ex.submit(_deep, 8000 if thorough else 300, seed)
         jobs["M:moving_reference"] = ex.submit(_mc_ref)
+        jobs["M:moving_reference_random_walks"] = ex.submit(_deep_ref, 4000 if thorough else 150, seed)
         jobs["R:farlow"] = ex.submit(_attack_ref)
         for a in ATTACKS:
             jobs["A:" + a] = ex.submit(_attack, a)
